@@ -11,7 +11,7 @@ PROPS["C19"] = dict(
     level="exploration",
     engine="E1",
     parts=[dict(bin="e1_gf2")],
-    rule="every system with v variables and <= e equations, each equation any non-empty strictly increasing variable list with any c-bit constant (ordered tuples of equations, so repeated/dependent/contradictory rows all occur); a system is non-trivial when it has >= 2 equations; each system is enumerated exactly once",
+    rule="every system with v variables and <= e equations, each equation any non-empty strictly increasing variable list with any c-bit constant (ordered tuples of equations, so repeated/dependent/contradictory rows all occur); a system is non-trivial when it has >= 2 equations; each system is enumerated exactly once; plus systems of 2-3 VERY WIDE equations (all pairs of widths from {1,2,3,254..258,300,511..513,1000,65536,65537}, four overlap patterns, all 16 constant pairs, four choices of a third equation) decided by an independent bitset Gaussian elimination - counters of the lazy solver must not be narrower than an equation",
     alphabet="(v,e,c) spaces; both solvers; W in {usize,u8}",
     bound={"quick": "(v<=e_max,c): (1,4,2) (2,4,2) (3,4,2) (4,3,2) (4,4,1) (5,3,1) (4,4,2) (6,3,1); u8 for v<=4,e<=3",
            "thorough": "quick + (3,5,2) (5,4,1) (4,5,1) (5,4,2) (7,3,1)"},
@@ -190,10 +190,10 @@ PROPS["C20"] = dict(
     level="exploration",
     engine="E1",
     parts=[dict(bin="e1_lenders")],
-    rule="case = (lender kind, Take(n) or none, input text); inside each case ALL histories of <= 3 rounds (consume c items, rewind), c in {0,1,L-1,L,L+1 (reads past the end)}, followed by a full pass; texts: ALL texts of <= 3 (thorough 4) lines over {\"\", a, bc, a 9000-byte line (> BufReader capacity)} x {LF, CRLF} x final terminator present/absent; one 4000-line ~300 KiB text for multi-block compressed streams; FromIntoIterator over ranges and Vec<String> of 0..=4 items; Take(n) for n in {0,1,L-1,L,L+1}; non-trivial = at least 2 items",
+    rule="case = (lender kind, Take(n) or none, input text); inside each case ALL histories of <= 3 rounds (consume c items, rewind), c in {0,1,L-1,L,L+1 (reads past the end)}, followed by a full pass; texts: ALL texts of <= 3 (thorough 4) lines over {\"\", a, bc, a 9000-byte line (> BufReader capacity), d+CR, a lone CR} x {LF, CRLF} x final terminator present/absent; one 4000-line ~300 KiB text for multi-block compressed streams; FromIntoIterator over ranges and Vec<String> of 0..=4 items; Take(n) for n in {0,1,L-1,L,L+1}; non-trivial = at least 2 items",
     alphabet="LineLender over Cursor and over a real file, ZstdLineLender, GzipLineLender, FromIntoIterator, lender::Take of each",
     bound={"quick": "texts of <= 3 lines, 3 rounds", "thorough": "texts of <= 4 lines, 3 rounds"},
-    oracle="after every history a full pass yields exactly the reference lines (split on LF, one CR before the LF removed, final unterminated line kept), each Ok; items consumed before a rewind are also compared",
+    oracle="after every history a full pass yields exactly the reference lines (reference splitter applied to the text itself: split on LF, one CR immediately before the LF removed, final unterminated non-empty piece kept as is - a lone CR is not a terminator), each Ok; items consumed before a rewind are also compared",
     assumptions=STRICT,
 )
 LEVEL_TEXT["C20"] = "Exhaustive enumeration of all small inputs x lender kinds x all consume/rewind histories up to three rounds, compared with the reference item sequence after every rewind."
@@ -232,7 +232,7 @@ PROPS["C17"] = dict(
     level="fault_enumeration",
     engine="E4+E5",
     parts=[dict(bin="e4_fault", timeout_s={"quick": 900, "thorough": 7200}), dict(bin="e5_proto", shards=4)],
-    rule="fault case = (builder kind, n, fault): for every builder kind (function/filter, online/offline store, FuseLge3Shards, FuseLge3NoShards with 64-bit signatures, FuseLge3FullSigs without hint) and n in {0,1,2,5,16} a fault-free reference build determines the number P of passes over the sources (retries after unsolvable shards make P > 1 for most small key sets); then EVERY (pass p, index i <= n) of the key source, every (p, i < n) of the value source and every rewind of either source is failed in turn (first 4 passes (thorough 8) and the last one), plus one pair of faults; duplicate case = (kind, n in {2,3,5,12}, EVERY pair placement (i,j), triples, all-equal, threads 1/3) with check_dups(true); thorough adds one duplicate inside 10 000 and 120 000 keys; E5 part: deadlock freedom of the par_solve model when shards fail; non-trivial = n >= 2",
+    rule="fault case = (builder kind, n, fault): for every builder kind (function/filter, online/offline store, FuseLge3Shards, FuseLge3NoShards with 64-bit signatures, FuseLge3FullSigs without hint) and n in {0,1,2,5,16} a fault-free reference build determines the number P of passes over the sources (retries after unsolvable shards make P > 1 for most small key sets); then EVERY (pass p, index i <= n) of the key source, every (p, i < n) of the value source and every rewind of either source is failed in turn (first 4 passes (thorough 8) and the last one), plus one pair of faults; the same for keys read as lines through the crate's LineLender over a reader that fails at EVERY byte offset (line boundaries, inside lines, end of input) of every pass; duplicate case = (kind, n in {2,3,5,12}, EVERY pair placement (i,j), triples, all-equal, threads 1/3) with check_dups(true); thorough adds one duplicate inside 10 000 and 120 000 keys; E5 part: deadlock freedom of the par_solve model when shards fail; non-trivial = n >= 2",
     alphabet="fault-injecting RewindableIoLender for keys and values (marker errors), duplicate key placements",
     bound={"quick": "n <= 16, first 4 passes + last", "thorough": "n <= 40, first 8 passes + last, large duplicate sets"},
     oracle="the call returns within the watchdog; if a fault was delivered the result is Err and its chain contains the injected marker, never Ok; if the fault position was never reached the result is Ok and every key maps to its value; duplicates: Err(DuplicateKey) after exactly 4 signature passes (counted by the lender), never Ok",
@@ -259,7 +259,7 @@ PROPS["C11"] = dict(
     level="exploration",
     engine="E1",
     parts=[dict(bin="e1_space", timeout_s={"quick": 900, "thorough": 7200})],
-    rule="rank/select: EVERY len in 0..=L and every power of two +-1 up to 2^26 x densities {ones, zeros, one per 512, alternating}; bit vectors and bit-field vectors built or grown only: every len 0..=300 x 9 widths x {new, new_unaligned, push, resize}; Elias-Fano (plain build): ALL (n,u) with n in 0..=64, u in 0..=U plus the split probes n 2^k +-1 and 2^63, MAX; functions/filters: arithmetic num_vertices x num_shards of every ShardEdge for EVERY n <= N then a 1% geometric grid to 10^12 with the largest admissible shard floor(1.01 n / shards), and real builds of functions and filters at regime boundaries for 4 value widths; non-trivial = non-empty structure",
+    rule="rank/select: EVERY len in 0..=L and every power of two +-1 up to 2^26 x densities {ones, zeros, one per 512, alternating}; bit vectors and bit-field vectors built or grown only: every len 0..=300 x 9 widths x {new, new_unaligned, push, resize} and collect / extend from iterators with exact, too-large and unknown size hints (filter, take_while, flat_map, chain); Elias-Fano (plain build): ALL (n,u) with n in 0..=64, u in 0..=U plus the split probes n 2^k +-1 and 2^63, MAX; functions/filters: arithmetic num_vertices x num_shards of every ShardEdge for EVERY n <= N then a 1% geometric grid to 10^12 with the largest admissible shard floor(1.01 n / shards), and real builds of functions and filters at regime boundaries for 4 value widths; non-trivial = non-empty structure",
     alphabet="additive constants fixed in DESIGN.md section 5 (C11): rank structures and Select9 + 1024 bits; Elias-Fano + 1152 bits; functions 2 segments per shard (MWHC: 3 x 128 cells per shard) + 8 cells; 1.135 applies to the default sharded logic from 100000 keys",
     bound={"quick": "L=5000, U=600, N=60000", "thorough": "L=70000, U=4096, N=10^6"},
     oracle="mem_size(SizeFlags::default()) of the structure minus that of the wrapped structure <= documented fraction of the bit length + constant; closed formulas from the property text",
